@@ -21,10 +21,10 @@ import (
 // error whenever ANY blob is oversize, also behind the cut; the property does
 // not say that -- false alarm, oracle corrected.)
 func ZZ_C16_size_filter() {
-	n := zzsym.Pick("n", 5)
+	n := zzsym.Pick("n", zzC16MaxBlobs+1)
 	blobs := make([]da.Blob, n)
 	for i := range blobs {
-		blobs[i] = zzsym.Bytes("b", 3)
+		blobs[i] = zzsym.Bytes("b", zzC16BlobBytes)
 	}
 	max := zzsym.U64("max")
 	var sent [][]byte
